@@ -3,10 +3,12 @@
  * `file_set` of util/rbt.c keyed by (st_dev, st_ino), the real ldb_open,
  * ldb_flock, ldb_system_error) over the libc models of envunix/libc.h.
  *
- * VP_K operations in a row, each chosen symbolically: lock one of three
- * names, or unlock one of the handles obtained earlier.  Two of the names
- * refer to the SAME underlying file (same symbolic (dev,ino): a hard link or a
- * second path to the same directory), the third to another file.
+ * VP_K operations in a row given by the script VP_P0..VP_P3 (concrete per
+ * obligation): 0/1/2 = lock name 0/1/2, 10+j = unlock the handle obtained in
+ * step j (skipped if that lock failed).  Names 0 and 1 refer to the SAME
+ * underlying file (same symbolic (dev,ino): a hard link or a second path to the
+ * same directory), name 2 to another file.  Every libc call may fail, so each
+ * script covers all patterns of failed and successful steps.
  *
  * Reference: held[file] -- a file is held from a successful lock until the
  * unlock of that handle.  Asserted after every operation:
@@ -65,12 +67,66 @@ ldb_mutex_unlock(ldb_mutex_t *mtx) {
   vp_mutex_unlocks++;
 }
 
+/* ---- the lock table's container ------------------------------------------------
+ * VP_REALRBT 1: the real util/rbt.c is linked.  VP_REALRBT 0 (default): a
+ * 4-slot array model of rb_set_has/put/del that calls the tree's REAL
+ * comparator (by_fileid) for every comparison; the red-black tree itself is
+ * decided by the obligations that link rbt.c (here with VP_REALRBT 1, and in
+ * C13/C17).  Set semantics only: has / insert-if-absent / delete-if-present. */
+#ifndef VP_REALRBT
+#define VP_REALRBT 0
+#endif
+#if !VP_REALRBT
+static const void *vp_set_item[4];
+static int vp_set_n;
+
+int
+rb_set_has(const rb_tree_t *tree, const void *item) {
+  int i, r = 0;
+  VP_ASSERT(tree == &file_set, "vp-model: only file_set is modelled");
+  for (i = 0; i < 4; i++) {
+    if (i < vp_set_n && tree->compare(rb_ptr(item), rb_ptr(vp_set_item[i]), tree->arg) == 0)
+      r = 1;
+  }
+  return r;
+}
+
+int
+rb_set_put(rb_tree_t *tree, const void *item) {
+  if (rb_set_has(tree, item))
+    return 0;
+  VP_ASSERT(vp_set_n < 4, "vp-model: set model full");
+  vp_set_item[vp_set_n++] = item;
+  return 1;
+}
+
+void *
+rb_set_del(rb_tree_t *tree, const void *item) {
+  const void *found = NULL;
+  int i, at = -1;
+  for (i = 0; i < 4; i++) {
+    if (at < 0 && i < vp_set_n && tree->compare(rb_ptr(item), rb_ptr(vp_set_item[i]), tree->arg) == 0)
+      at = i;
+  }
+  if (at < 0)
+    return NULL;
+  found = vp_set_item[at];
+  for (i = 0; i < 3; i++) {
+    if (i >= at)
+      vp_set_item[i] = vp_set_item[i + 1];
+  }
+  vp_set_item[3] = NULL;
+  vp_set_n--;
+  return (void *)found;
+}
+#endif
+
 /* ---- reference model --------------------------------------------------------- */
 static const char *const vp_lock_names[3] = { "db/LOCK", "alias/LOCK", "other/LOCK" };
 static int vp_held[2];                  /* by underlying file */
 static ldb_filelock_t *vp_h_ptr[VP_K];
 static int vp_h_used[VP_K], vp_h_file[VP_K], vp_h_fd[VP_K];
-static int vp_second_refused, vp_relocked, vp_failed_closed, vp_alias_refused, vp_unlock_err;
+static int vp_second_refused, vp_relocked, vp_failed_closed, vp_unlock_err;
 
 static void
 vp_check_os(void) {
@@ -83,13 +139,11 @@ vp_check_os(void) {
 }
 
 static void
-vp_op_lock(int k) {
-  uint8_t n = vp_u8();
+vp_op_lock(int k, int n) {
   ldb_filelock_t *lk = NULL;
   int f, rc, nopen0 = vp_nopen, washeld, wasunlocked;
   int frees0 = vp_frees;
 
-  VP_ASSUME(n < 3);
   f = (n == 2) ? 1 : 0;
   washeld = vp_held[f];
   wasunlocked = 0;
@@ -136,11 +190,8 @@ vp_op_lock(int k) {
     VP_ASSERT(vp_fds[k].closes <= 1, "and closed only once");
     VP_ASSERT(lk == NULL, "failure: no handle is returned");
     VP_ASSERT(vp_frees == frees0, "failure: nothing is freed");
-    if (washeld && !vp_hard_fail) {
+    if (washeld && !vp_hard_fail)
       vp_second_refused = 1;
-      if (n == 1 || (n == 0 && vp_h_used[0] && 0))
-        vp_alias_refused = 1;
-    }
     if (vp_hard_fail && vp_fds[k].closes == 1)
       vp_failed_closed = 1;
   }
@@ -148,21 +199,16 @@ vp_op_lock(int k) {
 }
 
 static void
-vp_op_unlock(int k) {
-  uint8_t j = vp_u8();
-  int i, rc, f = 0, fd = -1, nopen0 = vp_nopen, unl0 = vp_unlck_calls, frees0 = vp_frees;
-  ldb_filelock_t *lk = NULL;
+vp_op_unlock(int j) {
+  int i, rc, f, fd, nopen0 = vp_nopen, unl0 = vp_unlck_calls, frees0 = vp_frees;
+  ldb_filelock_t *lk;
 
-  VP_ASSUME(j < k);
-  for (i = 0; i < VP_K; i++) {
-    if (i == j) {
-      VP_ASSUME(vp_h_used[i]);
-      lk = vp_h_ptr[i];
-      f = vp_h_file[i];
-      fd = vp_h_fd[i];
-      vp_h_used[i] = 0;
-    }
-  }
+  if (!vp_h_used[j])
+    return;           /* that lock attempt failed: nothing to unlock */
+  lk = vp_h_ptr[j];
+  f = vp_h_file[j];
+  fd = vp_h_fd[j];
+  vp_h_used[j] = 0;
 
   vp_hard_fail = 0;
   vp_hard_errno = 0;
@@ -176,8 +222,8 @@ vp_op_unlock(int k) {
     VP_ASSERT(vp_fds[i].closes <= 1, "no descriptor is closed twice");
   VP_ASSERT(!vp_oslock[f], "the OS-level lock is released");
   VP_ASSERT(vp_frees == frees0 + 1 && vp_last_freed == (void *)lk, "the handle is freed once");
-  if (vp_hard_fail && vp_hard_call == 6) {
-    VP_ASSERT(rc == vp_hard_errno, "a failing F_UNLCK is reported");
+  if (vp_hard_fail) {
+    VP_ASSERT(vp_hard_call == 6 && rc == vp_hard_errno, "a failing F_UNLCK is reported");
     vp_unlock_err = 1;
   } else {
     VP_ASSERT(rc == LDB_OK, "unlock succeeds (a failing close(2) of the lock descriptor is ignored)");
@@ -203,24 +249,33 @@ harness(void) {
   vp_file_ino[1] = vp_u64();
   VP_ASSUME(vp_file_dev[0] != vp_file_dev[1] || vp_file_ino[0] != vp_file_ino[1]);
 
+  vp_no_einval = 1;
+  vp_close_error_ignored = 1;   /* ldb_lock_file/ldb_unlock_file do not look at close(2)'s result */
   for (k = 0; k < VP_K; k++) {
-    if (k > 0 && vp_bool())
-      vp_op_unlock(k);
+    static const int script[4] = { VP_P0, VP_P1, VP_P2, VP_P3 };
+    if (script[k] >= 10)
+      vp_op_unlock(script[k] - 10);
     else
-      vp_op_lock(k);
+      vp_op_lock(k, script[k]);
   }
 
   /* everything still held can be released */
+#ifdef VP_W_REFUSED
   if (vp_second_refused)
     VP_WITNESS("second-lock-refused-enolck");
-  if (vp_alias_refused)
-    VP_WITNESS("second-lock-through-another-name-refused");
+#endif
+#ifdef VP_W_RELOCK
   if (vp_relocked)
     VP_WITNESS("lock-after-unlock-succeeds");
+#endif
   if (vp_failed_closed)
     VP_WITNESS("failure-path-closes-descriptor");
+#ifdef VP_W_UNLOCK
   if (vp_unlock_err)
     VP_WITNESS("unlock-error-reported");
+#endif
+#ifdef VP_W_BOTH
   if (vp_held[0] && vp_held[1])
     VP_WITNESS("two-different-files-held");
+#endif
 }
